@@ -16,10 +16,15 @@
 (***************************************************************************)
 EXTENDS Integers, Sequences, FiniteSets, TLC, Json
 
-CONSTANTS Atomic
+CONSTANTS Atomic,
+          Readers,      \* how many lock-free reads (PackForCast / GetReceived: no pool lock) may interleave
+          CachedView    \* BOOLEAN, FALSE = as coded: a reader looks at the container itself; TRUE = a
+                        \* variant in which readers build a pending view once and mutators drop it when
+                        \* they TAKE the lock, i.e. before their mutation (negative control)
 
-VARIABLES inPending, inExecuted, op2, pc, seen, sched, init
-vars == <<inPending, inExecuted, op2, pc, seen, sched, init>>
+VARIABLES inPending, inExecuted, op2, pc, seen, sched, init, view, nread
+vars == <<inPending, inExecuted, op2, pc, seen, sched, init, view, nread>>
+(* view: "none" or what a cached pending view holds: "with" / "without" the transaction *)
 
 Ops2 == {"Add", "Mark", "UnMark"}
 Inits == {"absent", "pending", "executed"}
@@ -32,6 +37,7 @@ Init == /\ init \in Inits
         /\ pc = [th \in {1, 2} |-> 0]
         /\ seen = [th \in {1, 2} |-> FALSE]
         /\ sched = <<>>
+        /\ view = "none" /\ nread = 0
 
 Exists == inPending \/ inExecuted
 
@@ -41,7 +47,8 @@ Micro(th) ==
   /\ pc[th] < Steps(o)
   /\ pc' = [pc EXCEPT ![th] = k]
   /\ sched' = Append(sched, th)
-  /\ UNCHANGED <<op2, init>>
+  /\ UNCHANGED <<op2, init, nread>>
+  /\ view' = IF k = 1 THEN "none" ELSE view
   /\ CASE o = "Add" /\ k = 1 -> seen' = [seen EXCEPT ![th] = Exists] /\ UNCHANGED <<inPending, inExecuted>>
        [] o = "Add" /\ k = 2 -> inPending' = (inPending \/ ~seen[th]) /\ UNCHANGED <<inExecuted, seen>>
        [] o = "Mark" /\ k = 1 -> inExecuted' = TRUE /\ UNCHANGED <<inPending, seen>>
@@ -56,15 +63,28 @@ Whole(th) ==
   /\ pc[th] = 0
   /\ pc' = [pc EXCEPT ![th] = Steps(o)]
   /\ sched' = sched \o [i \in 1..Steps(o) |-> th]
-  /\ UNCHANGED <<op2, init, seen>>
+  /\ UNCHANGED <<op2, init, seen, nread>>
+  /\ view' = "none"
   /\ CASE o = "Add" -> inPending' = (inPending \/ ~Exists) /\ UNCHANGED inExecuted
        [] o = "Mark" -> inExecuted' = TRUE /\ inPending' = FALSE
        [] o = "UnMark" -> inExecuted' = FALSE /\ inPending' = TRUE
 
-Next == \E th \in {1, 2} : IF Atomic THEN Whole(th) ELSE Micro(th)
+(* a lock-free reader (thread 3 in the schedule): sees the container; in the CachedView variant it
+   builds the view if there is none *)
+Read ==
+  /\ nread < Readers /\ ~Atomic
+  /\ nread' = nread + 1
+  /\ sched' = Append(sched, 3)
+  /\ view' = IF CachedView /\ view = "none" THEN (IF inPending THEN "with" ELSE "without") ELSE view
+  /\ UNCHANGED <<inPending, inExecuted, op2, pc, seen, init>>
+
+Next == (\E th \in {1, 2} : IF Atomic THEN Whole(th) ELSE Micro(th)) \/ Read
 Spec == Init /\ [][Next]_vars
 
 Done == \A th \in {1, 2} : pc[th] = Steps(OpOf(th))
+(* what a pack after all calls returned is built from *)
+PackSees == IF CachedView /\ view # "none" THEN view = "with" ELSE inPending
+InvPackSeesPool == Done => (PackSees = inPending)
 (* an executed transaction is never (also) in the pool *)
 InvAtMostOnce == Done => ~(inPending /\ inExecuted)
 Dump == Done => PrintT(<<"SCHED", ToJson([init |-> init, op2 |-> op2, sched |-> sched])>>)
